@@ -369,3 +369,44 @@ func nodeContains(root, sub ast.Node) bool {
 	})
 	return found
 }
+
+// loopEarlyExit returns the first return, break or goto that leaves loop
+// (a *ast.ForStmt or *ast.RangeStmt) from inside its body, or nil.
+func loopEarlyExit(f *eng.Fn, loop ast.Stmt) ast.Node {
+	g := f.Graph()
+	var body *ast.BlockStmt
+	switch l := loop.(type) {
+	case *ast.ForStmt:
+		body = l.Body
+	case *ast.RangeStmt:
+		body = l.Body
+	default:
+		return nil
+	}
+	var early ast.Node
+	ast.Inspect(body, func(x ast.Node) bool {
+		switch y := x.(type) {
+		case *ast.FuncLit:
+			return false
+		case *ast.ReturnStmt:
+			if early == nil {
+				early = y
+			}
+		case *ast.BranchStmt:
+			if y.Tok == token.BREAK || y.Tok == token.GOTO {
+				var target ast.Node
+				for p := g.Parent(y); p != nil && target == nil; p = g.Parent(p) {
+					switch p.(type) {
+					case *ast.ForStmt, *ast.RangeStmt, *ast.SwitchStmt, *ast.TypeSwitchStmt, *ast.SelectStmt:
+						target = p
+					}
+				}
+				if (y.Label != nil || target == ast.Node(loop)) && early == nil {
+					early = y
+				}
+			}
+		}
+		return true
+	})
+	return early
+}
